@@ -28,7 +28,7 @@ LEVEL = "translation_validation"
 RULE = ("programs = every (function, signature) of the python / numpy (debug 0 and 1) / cpp trace_arguments + unit programs for every entry of each target's "
         "kind_to_target and constant_to_target tables + random typed graphs over the kinds the target declares; inputs = hostile scalars (+-0, subnormal, tiny, 1+-ulp, "
         "huge, +-inf, nan) and random bit patterns. A program is non-trivial when it has at least one referenced (assigned) intermediate or a select")
-ASSUME = ["C++ batches are built with -fno-builtin so that the compiler does not fold std:: calls on constants with MPFR instead of calling libm", "reference semantics per primitive library are written from the libraries' documentation in vf/refinterp.py (Python math; NumPy scalars; IEEE ops + glibc libm via ctypes)",
+ASSUME = ["C++ batches are built with -fno-builtin -frounding-math so that the compiler does not fold std:: calls on constants with MPFR instead of calling libm (the float overloads of <cmath> are __builtin_ calls, which -fno-builtin alone does not stop at -O1)", "reference semantics per primitive library are written from the libraries' documentation in vf/refinterp.py (Python math; NumPy scalars; IEEE ops + glibc libm via ctypes)",
           "maximum/minimum accept either operand when the operands compare equal or one is NaN; a reference run that raises (Python math domain/zero-division/overflow) is not compared",
           "g++ 12 -O1 -ffp-contract=off on x86-64 SSE (FLT_EVAL_METHOD == 0)"]
 REQUIRE = ["programs", "programs:python", "programs:numpy", "programs:cpp", "executions:python", "executions:numpy", "executions:cpp", "table-entries:exercised"]
@@ -865,7 +865,7 @@ def run_cpp(rec, fa, rnd, ngen, ninputs, sanitize):
         big = os.path.join(tmp, "all.cpp")
         with open(big, "w") as fh:
             fh.write(src_all + "\n".join(u["src"] + "\n" + cpp_wrapper(u["name"], u["sig"], u["rtype"]) for u in good))
-        builds = [("g++-O1", ["g++", "-std=c++17", "-O1", "-ffp-contract=off", "-fno-builtin", "-shared", "-fPIC", big, "-o", os.path.join(tmp, "all_O1.so")]),
+        builds = [("g++-O1", ["g++", "-std=c++17", "-O1", "-ffp-contract=off", "-fno-builtin", "-frounding-math", "-shared", "-fPIC", big, "-o", os.path.join(tmp, "all_O1.so")]),
                   ("g++-O0", ["g++", "-std=c++17", "-O0", "-ffp-contract=off", "-fno-builtin", "-shared", "-fPIC", big, "-o", os.path.join(tmp, "all_O0.so")])]
         libs = []
         for bname, cmd in builds:
@@ -968,7 +968,7 @@ SHARD_TIMEOUT = {"quick": 2400, "thorough": 12000}
 
 def plan(tier, seed):
     t = []
-    ngen, nin, nsh = (25, 30, 3) if tier == "quick" else (1200, 300, 5)
+    ngen, nin, nsh = (25, 30, 3) if tier == "quick" else (500, 200, 5)
     for tname in ("python", "numpy", "cpp"):
         for s in range(nsh):
             t.append(("target", dict(target=tname, seed=seed, shard=s, ngen=ngen, ninputs=nin, sanitize=(tier == "thorough" and s == 0))))
